@@ -42,7 +42,10 @@ def main():
     if m:
         tok = m.group(1).strip()
         tok = re.sub(r"<[^>]*>/?", "", tok).strip().lstrip("/")
+        tok = re.sub(r"^tmp/[^/]+/", "", tok)  # absolute path inside the agent's worktree
         if "/" in tok:
+            rel = tok
+        elif tok.endswith("_test.go"):
             rel = tok
     pkgm = re.search(r"^package (\w+)", open(demo).read(), re.M)
     pkg = pkgm.group(1)
